@@ -12,5 +12,6 @@ from pyvc.program import Program  # noqa: E402
 
 P = Program(sys.argv[1] if len(sys.argv) > 1 else "/repo")
 out = {fi.dotted: fi.local_names() for fi in P.funcs.values()}
+out["#signatures"] = {fi.dotted: fi.local_signatures() for fi in P.funcs.values()}  # first-binding signature of every local
 json.dump(out, open(os.path.join(HERE, "contracts", "locals_baseline.json"), "w"), indent=0, sort_keys=True)
 print(len(out), "functions")
